@@ -248,7 +248,10 @@ def build_input(inp, d, tag):
             data += bytes([c["b"]]) * c["n"]
         return data, ".xz"
     if kind == "lzma":
-        data = xz_compress(plain_bytes(inp["plain"]), ["--format=lzma", "-0"], d, tag)
+        # dictionary sizes of the form 2^n + 2^(n-1) are valid for .lzma (the alone encoder writes them, lzmadec takes them, xz's
+        # plausibility rule is written to accept them) although no preset uses one
+        lzargs = ["--format=lzma", "--lzma1=preset=0,dict=" + inp["lzdict"]] if inp.get("lzdict") else ["--format=lzma", "-0"]
+        data = xz_compress(plain_bytes(inp["plain"]), lzargs, d, tag + (inp.get("lzdict") or ""))
         tail = inp["tail"]
         if tail == "garbage":
             data += b"\x00"
@@ -782,7 +785,8 @@ def input_strategy(draw):
     if kind == "xz":
         return {"kind": "xz", "streams": draw(st.lists(xz_stream_strategy(), min_size=1, max_size=3)), "corrupt": draw(corrupt_strategy())}
     if kind == "lzma":
-        return {"kind": "lzma", "plain": draw(plain_strategy(4)), "tail": draw(st.sampled_from(["", "", "", "garbage", "lzma", "xz"])), "corrupt": draw(corrupt_strategy())}
+        return {"kind": "lzma", "plain": draw(plain_strategy(4)), "tail": draw(st.sampled_from(["", "", "", "garbage", "lzma", "xz"])), "corrupt": draw(corrupt_strategy()),
+                "lzdict": draw(st.sampled_from([None, None, None, "768KiB", "6KiB", "1536KiB", "24KiB", "3MiB"]))}
     if kind == "raw":
         return {"kind": "raw", "plain": draw(plain_strategy(4)), "corrupt": None}
     names = draw(st.lists(st.sampled_from(REPO_FILES if kind == "repo" else REPO_LZ), min_size=1, max_size=2))
